@@ -145,6 +145,27 @@ func (si *segmenterInfo) flagsIn(fn *ssa.Function) (ra, pc ssa.Value) {
 			ra, pc = call.Call.Args[si.raIdx], call.Call.Args[si.pcIdx]
 		}
 	})
+	if ra != nil || si.writeSample == nil {
+		return
+	}
+	// a phase split off the sample writer: a function that the sample writer calls with its own two flags
+	allInstrs(si.writeSample, func(in ssa.Instruction) {
+		call, ok := in.(*ssa.Call)
+		if !ok || call.Call.StaticCallee() != fn {
+			return
+		}
+		for k, a := range call.Call.Args {
+			if k >= len(fn.Params) {
+				break
+			}
+			if a == ssa.Value(si.writeSample.Params[si.raIdx]) {
+				ra = fn.Params[k]
+			}
+			if a == ssa.Value(si.writeSample.Params[si.pcIdx]) {
+				pc = fn.Params[k]
+			}
+		}
+	})
 	return
 }
 
